@@ -1,5 +1,6 @@
 """C02 — parsed expression trees follow the language's precedence and associativity."""
 import os, re, struct
+from scopegen import sexpr as scopegen_sexpr
 import vlib, exprgen, gen_grammar
 
 
@@ -215,6 +216,19 @@ def check(run):
             tree = next((l[5:] for l in lines if l.startswith('tree ')), None)
             synerr = any('syntax error' in l or 'yntax' in l for l in lines if l.startswith('error'))
             ml = mres[i]
+            if ml.startswith('TREE '):
+                # the grammar gives every builtin function a fixed number of arguments; the SR model parses any argument list: a call with
+                # another count is a syntax error of the real parser, i.e. a rejection
+                ar = {f['kind']: f['arity'] for f in T.fns if 'kind' in f}
+                def bad_arity(node):
+                    if not isinstance(node, list) or not node:
+                        return False
+                    kids = [x for x in node[1:] if isinstance(x, list)]
+                    if isinstance(node[0], str) and node[0] in ar and len(kids) != ar[node[0]]:
+                        return True
+                    return any(bad_arity(x) for x in kids)
+                if bad_arity(scopegen_sexpr(T.expected(exprgen.parse_sx(ml[5:])))):
+                    ml = 'REJECT arity'
             if ml.startswith('TREE '):
                 exp = T.expected(exprgen.parse_sx(ml[5:]))
                 if nerr == 0 and tree == exp:
